@@ -293,6 +293,11 @@ func (c *Ctx) c14drive(f c14file) {
 	}
 	full := c14guard(func() c14out { return f.read(f.data) })
 	c.Note("c14.file." + f.label)
+	if f.format == "ply" {
+		// the header description of the real ply.ReadHeader vs the one the model derives from the bytes
+		// (Ply.parseHeader + PlyFile.hdrOf)
+		c.Emit("c14.ply.hdr", c15hex(f.data), f.desc)
+	}
 	if !strings.HasPrefix(full.class, "ok") {
 		// the generator produced something the reader does not accept in full: still a correspondence case, no cuts
 		c.Note("c14.full-file-rejected." + f.label)
@@ -369,6 +374,9 @@ func (c *Ctx) c14drive(f c14file) {
 		if (isOk && !f.streamed) || bad || sampled[k] {
 			if mk >= 0 {
 				c.Emit("c14."+f.format+".cut", pre+c15hex(f.model[:mk]), r.class)
+				if f.format == "ply" {
+					c.Emit("c14.plyfile.cut", c15hex(f.model[:mk]), r.class) // model from the file bytes alone
+				}
 			}
 		}
 		if isOk && f.onePoint && k < len(f.data) && c14tokenBoundary(f.data, k) {
